@@ -52,6 +52,8 @@ class FakePath(PosixPath):
         FS.dirs.add(str(self))
 
     def touch(self, mode=0o666, exist_ok=True):
+        if str(self) in FS.files and not exist_ok:
+            raise FileExistsError(17, "File exists", str(self))
         FS.files.setdefault(str(self), "")
 
     def resolve(self, strict=False):
@@ -59,7 +61,9 @@ class FakePath(PosixPath):
 
     def open(self, mode="r", buffering=-1, encoding=None, errors=None, newline=None):
         p = str(self)
-        if "w" in mode:
+        if "x" in mode and p in FS.files:
+            raise FileExistsError(17, "File exists", p)
+        if "w" in mode or "x" in mode:
             FS.opened_for_write.append(p)
             FS.files[p] = ""  # as on a real file system: the file exists (empty) as soon as it is opened for writing
 
